@@ -28,7 +28,8 @@ XS = ['start', 'stop', 'restart', 'reload', 'incr', 'decr', 'set', 'add', 'rm', 
       'stop-all', 'start-all', 'restart-glob', 'stop-glob-two', 'start-glob-two', 'restart-glob-two']
 SYNC_FAIL = ['set-singleton', 'add-bad-hook', 'add-empty-name']
 ASYNC_FAIL = ['incr-bad-nb', 'reloadconfig-nofile', 'start-popen-runtimeerror', 'incr-popen-runtimeerror', 'restart-popen-runtimeerror',
-              'check-popen-runtimeerror', 'start-exec-fault', 'start-hook-raise', 'reloadconfig-popen-runtimeerror']
+              'check-popen-runtimeerror', 'start-exec-fault', 'start-hook-raise', 'reloadconfig-popen-runtimeerror',
+              'check-first-watcher-fails']
 
 
 def scenarios(tier):
@@ -102,6 +103,8 @@ def run(scn, ch):
     ws = dict(cmd='sleep 60', numprocesses=1, singleton='true', graceful_timeout=G)
     if x in ('start', 'start-popen-runtimeerror', 'start-exec-fault', 'start-hook-raise'):
         wa['autostart'] = 'false'
+    if x == 'check-first-watcher-fails':
+        wb['numprocesses'] = 2          # (its respawns are paced too: see below)
     write_ini(ini, [('a', wa), ('b', wb), ('s', ws)])
     world = World(ch, [WSpec('a', behaviours=[slow(0.1)]), WSpec('b'), WSpec('s')], config_file=ini)
     world.y_records = []
@@ -114,6 +117,8 @@ def run(scn, ch):
                 w.warmup_delay = 0.25          # float warmup (the ini parser only takes ints)
                 if x == 'start-hook-raise':
                     w.hooks['after_start'] = nth_hook(world, 1, 'raise')
+            if w.name == 'b' and x == 'check-first-watcher-fails':
+                w.warmup_delay = 0.25
         world.boot()
         world.run(until=lambda w: w.boot_future.done(), horizon=5)
         world.run(horizon=0.5)
@@ -174,6 +179,17 @@ def run(scn, ch):
             world.die(p[0].pid, EXIT1)
             world.die(p[1].pid, EXIT1)
             world.run(until=lambda w: w.slot() is not None, horizon=1.2)
+        elif x == 'check-first-watcher-fails':
+            # every worker of a and b dies; in the next periodic check the management of a (first in the arbiter's order)
+            # fails at its first process creation while that of b is between two paced respawns: the check is over when
+            # the management of EVERY watcher is
+            world.kernel.popen_fault = lambda k, attempt, info: (RuntimeError('boom')
+                                                                 if (info.get('watcher') or '') == 'a' else None)
+            for p in world.procs_of('a', [RUNNING]) + world.procs_of('b', [RUNNING]):
+                world.die(p.pid, EXIT1)
+            n_sp = len(world.kernel.spawn_log)
+            # (the check has begun when it holds the slot - or, should it have let go of it already, when b has a new worker)
+            world.run(until=lambda w: w.slot() is not None or len(w.kernel.spawn_log) > n_sp, horizon=1.2)
         elif x == 'set-singleton':
             xr = world.request('set', name='s', options={'numprocesses': 2})
         elif x == 'incr-bad-nb':
